@@ -251,6 +251,7 @@ func c09Templates() []c09Tpl {
 }
 
 type c09ChildOut struct {
+	Flags     string   `json:"flags"` // which guard words occur in the (untruncated) errors
 	ElapsedMs int64    `json:"elapsed_ms"`
 	HWMkB     int64    `json:"vm_hwm_kb"`
 	Errs      []string `json:"errs"`
@@ -278,6 +279,12 @@ func c09Child(args []string) int {
 	res, errs, _ := repl.EvalStringWithOption(context.Background(), opts, string(b))
 	el := time.Since(start)
 	out := c09ChildOut{ElapsedMs: el.Milliseconds(), Errs: errs, ResLen: len(res)}
+	full := strings.Join(errs, " | ")
+	for _, w := range []string{"max depth", "deadline", "would exceed memory", "too large", "nesting too deep"} {
+		if strings.Contains(full, w) {
+			out.Flags += w + ";"
+		}
+	}
 	for i, e := range out.Errs {
 		if len(e) > 300 {
 			out.Errs[i] = e[:300]
@@ -332,7 +339,7 @@ func (p c09) child(c *fw.Ctx, t c09Tpl, depth, durMs int, dir string) (kind, det
 	if err := json.Unmarshal([]byte(line), &co); err != nil {
 		return "child-no-result", err.Error(), false
 	}
-	errText := strings.Join(co.Errs, " | ")
+	errText := co.Flags + " " + strings.Join(co.Errs, " | ")
 	guard = strings.Contains(errText, "max depth") || strings.Contains(errText, "deadline") || strings.Contains(errText, "would exceed memory") || strings.Contains(errText, "too large") || strings.Contains(errText, "nesting too deep")
 	if co.ElapsedMs > int64(durMs)+5000 {
 		return "late", fmt.Sprintf("returned after %d ms with a %d ms deadline (errors: %s)", co.ElapsedMs, durMs, clip(errText)), guard
